@@ -134,3 +134,24 @@ package route
 //@   assert only make-size make-bounded
 //@   assert makebound len(bts)
 //@   requires b != nil
+
+// ---- C19 / C16: every received event takes exactly one route; events handed to a
+// transmission are not touched afterwards.
+// `deliveries` counts what left this function towards a sink: upstream queue, peer
+// queue, collector. (A span kept by stress relief is forwarded upstream inside
+// ProcessSpanImmediately.)
+//@ contract route.(*Router).processEvent props C19,C16
+//@   assert owns
+//@   requires r != nil && ev != nil && owns(ev)
+//@   let e0 = ev
+//@   requires[distinct-sinks] toInt(refOf(r.UpstreamTransmission)) != toInt(refOf(r.PeerTransmission))
+//@   ensures[at-most-one-of-each] 0 <= enqN(r.UpstreamTransmission) - old(enqN(r.UpstreamTransmission)) && enqN(r.UpstreamTransmission) - old(enqN(r.UpstreamTransmission)) <= 1 && 0 <= enqN(r.PeerTransmission) - old(enqN(r.PeerTransmission)) && enqN(r.PeerTransmission) - old(enqN(r.PeerTransmission)) <= 1 && 0 <= addedN(r.Collector) - old(addedN(r.Collector)) && addedN(r.Collector) - old(addedN(r.Collector)) <= 1
+//@   ensures[one-data-route] (enqN(r.UpstreamTransmission) - old(enqN(r.UpstreamTransmission))) + (addedN(r.Collector) - old(addedN(r.Collector))) + ite(enqN(r.PeerTransmission) != old(enqN(r.PeerTransmission)) && !enqProbe(r.PeerTransmission), 1, 0) + (immN(r.Collector) - old(immN(r.Collector))) <= 1
+//@   ensures[error-means-nothing-forwarded-upstream-or-to-peer] result != nil ==> enqN(r.UpstreamTransmission) == old(enqN(r.UpstreamTransmission)) && enqN(r.PeerTransmission) == old(enqN(r.PeerTransmission))
+//@   ensures[no-trace-id-goes-upstream] result == nil && e0.Data.MetaTraceID == "" && !(e0.Data.MetaRefineryProbe.HasValue && e0.Data.MetaRefineryProbe.Value) ==> enqN(r.UpstreamTransmission) == old(enqN(r.UpstreamTransmission)) + 1 && toInt(enqLast(r.UpstreamTransmission)) == toInt(e0) && enqN(r.PeerTransmission) == old(enqN(r.PeerTransmission)) && addedN(r.Collector) == old(addedN(r.Collector))
+//@   ensures[peer-forward-keeps-key-and-dataset] enqN(r.PeerTransmission) != old(enqN(r.PeerTransmission)) ==> enqKey(r.PeerTransmission) == old(ev.APIKey) && enqDataset(r.PeerTransmission) == old(ev.Dataset) && enqHost(r.PeerTransmission) == r.Sharder.WhichShard(e0.Data.MetaTraceID).GetAddress() && !r.Sharder.WhichShard(e0.Data.MetaTraceID).Equals(r.Sharder.MyShard())
+//@   ensures[probes-are-discarded] result == nil && e0.Data.MetaRefineryProbe.HasValue && e0.Data.MetaRefineryProbe.Value ==> enqN(r.UpstreamTransmission) == old(enqN(r.UpstreamTransmission)) && enqN(r.PeerTransmission) == old(enqN(r.PeerTransmission)) && addedN(r.Collector) == old(addedN(r.Collector)) && immN(r.Collector) == old(immN(r.Collector))
+//@   ensures[own-trace-goes-to-the-collector] e0.Data.MetaTraceID != "" && !(e0.Data.MetaRefineryProbe.HasValue && e0.Data.MetaRefineryProbe.Value) && !r.Collector.Stressed() && r.Sharder.WhichShard(e0.Data.MetaTraceID).Equals(r.Sharder.MyShard()) && (result == nil || addedN(r.Collector) != old(addedN(r.Collector))) ==> addedN(r.Collector) == old(addedN(r.Collector)) + 1 && toInt(addedLast(r.Collector)) == toInt(e0) && enqN(r.UpstreamTransmission) == old(enqN(r.UpstreamTransmission)) && enqN(r.PeerTransmission) == old(enqN(r.PeerTransmission))
+//@   ensures[never-a-probe-upstream] enqN(r.UpstreamTransmission) != old(enqN(r.UpstreamTransmission)) ==> !enqProbe(r.UpstreamTransmission)
+//@   modifies ev.APIHost, ev.Data, ev.dataSize, all(enqN), all(enqLast), all(enqHost), all(enqKey), all(enqDataset), all(enqProbe), all(owns), all(addedN), all(addedLast), all(immN)
+//@ owned types.Event
